@@ -20,6 +20,16 @@ def main():
         import setup_all
         sys.exit(setup_all.main())
     mod = importlib.import_module("props." + a.pid)
+    wanted = None
+    if a.replay:
+        # a replay re-runs the deterministic exploration the file came from (same seed, same tier) and says which of the
+        # recorded violations show up again on the tree as it is now
+        import json
+        rec = json.load(open(a.replay))
+        seed, a.tier = int(rec.get("seed", seed)), rec.get("tier", a.tier)
+        wanted = [v.get("what") for v in rec.get("violations", [])] + [b.get("what") for b in rec.get("broken", [])]
+        for v in rec.get("violations", [])[:3]:
+            print("REPLAY recorded: %s\n  input: %s" % (v.get("what"), json.dumps(v.get("input"), default=str)[:600]))
     R = core.Result(a.pid, a.tier if a.tier in ("quick", "thorough") else "quick", seed)
     try:
         mod.run(R, replay=a.replay)
@@ -33,6 +43,10 @@ def main():
             impl.cleanup()
         except Exception:
             pass
+    if wanted is not None:
+        now = {v.get("what") for v in R.violations} | {b.get("what") for b in R.broken}
+        again = [w for w in wanted if w in now]
+        print("REPLAY: %d of %d recorded violations reproduce on the current tree" % (len(again), len(wanted)))
     sys.exit(core.finish(R))
 
 
